@@ -720,6 +720,17 @@ def special_programs():
         '    require(a > 0 && a >= 1, "msg");\n    x = x + 1;\n    x = a / 2 * 3;\n    for (uint i; i < m.length; i++) {\n      ++x;\n    }\n'
         '    if (o == address(0)) {\n      x = a * 4;\n    }\n    IERC20(o).transfer(o, address(this).balance);\n    return x;\n  }\n'
         '  function k() external {\n    selfdestruct(payable(o));\n  }\n  function _p() public {\n  }\n  uint public _q;\n}\n')
+    add('file-level-using', 'pragma solidity 0.7.6;\nusing SafeMath for uint256;\nenum FileEnum { A, B }\n'
+        'contract A { function f(uint z) public returns (uint) { return z.add(2).sub(1); } }')
+    add('file-level-using-new', 'pragma solidity ^0.8.13;\nusing SafeMath for uint256;\nusing {plus} for uint;\nfunction plus(uint a, uint b) pure returns (uint) { return a + b; }\n'
+        'enum FileEnum { A, B }\ncontract A { function f(uint z) public returns (uint) { return z.add(2).mul(3); } }')
+    add('address-literal', PRELUDE + 'contract A { address o; function f() public returns (bool) { o = address"5GrwvaEF5zXb26Fz9rcQpDWS57CtERHpNehXCPcNoHGKutQY"; '
+        'return o == address"5GrwvaEF5zXb26Fz9rcQpDWS57CtERHpNehXCPcNoHGKutQY"; } }')
+    add('name-value-attributes', PRELUDE + 'contract A { uint x; function f() public selector=hex"01020304" { x = x + 1; } '
+        'function g(uint a) external seed = "abc" bump=1 returns (uint) { return a * 2; } function h() public flag=true {} }\n'
+        'function fr(uint a) pure space=0x10 returns (uint) { return a / 4; }')
+    add('free-function-modifier-args', PRELUDE + 'function fr(uint a) mm(a + 1, a * 2) lib.md(a >= 3) returns (uint) { return a; }\n'
+        'contract A { uint x; modifier mm(uint p, uint q) { _; } function f(uint a) public mm(x = 1, a / 2 * 3) returns (uint) { return a; } }')
     add('free-functions', PRELUDE + 'function min(uint a, uint b) pure returns (uint) { return a < b ? a : b; }\n'
         'function twice(uint a) pure returns (uint) { return min(a, a) * 2; }\ncontract C { function f() public {} }\nfunction max(uint a, uint b) pure returns (uint) { return a >= b ? a : b; }')
     return P
@@ -735,6 +746,27 @@ def c08_scenarios(rng, n):
     function / constructor / modifier / fallback / free function; directly or nested in a larger expression"""
     out = []
     types = ['uint', 'uint256', 'uint8', 'address', 'bool', 'bytes32', 'int', 'string', 'bytes', 'uint[]', 'mapping(uint => uint)', 'IERC20']
+    # systematic part: every write form x every place of the write, on a variable that the constructor assigns and on one it does not
+    place_tpl = {
+        'same_fn': ('contract Decl { uint y; uint cand = 0; uint plain; constructor(uint q) { cand = q; } function w() public { %s } }', ''),
+        'same_ctor': ('contract Decl { uint y; uint cand; uint plain; constructor(uint q) { cand = q; %s } }', ''),
+        'modifier': ('contract Decl { uint y; uint cand; uint plain; constructor(uint q) { cand = q; } modifier mm() { %s _; } function w() public mm { } }', ''),
+        'fallback': ('contract Decl { uint y; uint cand; uint plain; constructor(uint q) { cand = q; } fallback() external { %s } }', ''),
+        'receive': ('contract Decl { uint y; uint cand; uint plain; constructor(uint q) { cand = q; } receive() external payable { %s } }', ''),
+        'other_fn': ('contract Decl { uint y; uint cand; uint plain; constructor(uint q) { cand = q; } }', 'contract Other is Decl { function w() public { %s } }'),
+        'other_ctor': ('contract Decl { uint y; uint cand; uint plain; constructor(uint q) { cand = q; } }', 'contract Other is Decl { constructor() Decl(1) { %s } }'),
+        'library': ('contract Decl { uint y; uint cand; uint plain; constructor(uint q) { cand = q; } }', 'library Third { function w() internal { %s } }'),
+        'free': ('contract Decl { uint y; uint cand; uint plain; constructor(uint q) { cand = q; } }', 'function freeWriter() { %s }'),
+    }
+    k0 = 0
+    for place in sorted(place_tpl):
+        for form in WRITE_FORMS:
+            for var in ('cand', 'plain'):
+                a, b = place_tpl[place]
+                stmt = form.replace('@', var) + ';'
+                src = PRELUDE + (a % stmt if '%s' in a else a) + '\n' + (b % stmt if '%s' in b else b) + '\n'
+                out.append({'gen': 'c08sys:%s:%s:%s' % (place, form, var), 'src': src})
+                k0 += 1
     for k in range(n):
         nv = rng.randint(1, 4)
         decls = []
